@@ -391,25 +391,43 @@ def zero_alignment_rule(repo: Repo, rep: Report, rid: str) -> None:
             rep.check(not any(c is b_ for b_ in bad), rid, f"{fi.key}:{short(c, 60)}", "guarded by a non-empty alignment",
                       f"{fi.qualname}: '{short(c, 70)}' is reached for a structure without fields, whose alignment is 0: the mask is -1 and the stream is moved "
                       "back by tell() bytes (an empty aligned structure parsed at position p leaves the stream at 0)", fi.loc(c))
-    # the generated reader: the same statement as template text
-    gen = repo.func("compiler.py", "_ReadSourceGenerator._generate_fields")
-    pm = parent_map(gen.node)
-    for x in walk_body(gen.node.body):
-        if isinstance(x, (ast.JoinedStr, ast.Constant)) and not isinstance(pm.get(x), (ast.JoinedStr, ast.FormattedValue)):
-            text = "".join(str(v.value) for v in x.values if isinstance(v, ast.Constant)) if isinstance(x, ast.JoinedStr) else (x.value if isinstance(x.value, str) else "")
-            if "cls.alignment - 1" in text and "seek" in text:
-                n += 1
-                guarded = "or 1" in text
-                p_ = pm.get(x)
-                while p_ is not None and not guarded:
-                    if isinstance(p_, ast.If):
-                        conj = p_.test.values if isinstance(p_.test, ast.BoolOp) and isinstance(p_.test.op, ast.And) else [p_.test]
-                        guarded = any(norm(y) in ("self.fields", "len(self.fields)", "len(self.fields) > 0") for y in conj)
-                    p_ = pm.get(p_)
-                rep.check(guarded, rid, f"{gen.key}:template {short(x, 50)}", "emitted only for a structure that has fields",
-                          "the generated reader aligns the stream with 'cls.alignment - 1' also for a structure without fields (alignment 0): the compiled "
-                          "reader of an empty aligned structure seeks back to the start of the stream", gen.loc(x))
+    # the generated reader: the same statement as template text (holes that hold a constant string are part of the text)
+    for t in T.reader_templates(repo):
+        text = " ".join(t.text.split())
+        if "cls.alignment - 1" not in text or "seek" not in text:
+            continue
+        n += 1
+        pm = parent_map(t.func.node)
+        guarded = "or 1" in text
+        p_ = pm.get(t.node)
+        while p_ is not None and not guarded:
+            if isinstance(p_, ast.If):
+                conj = p_.test.values if isinstance(p_.test, ast.BoolOp) and isinstance(p_.test.op, ast.And) else [p_.test]
+                guarded = any(norm(y) in ("self.fields", "len(self.fields)", "len(self.fields) > 0") for y in conj)
+            p_ = pm.get(p_)
+        rep.check(guarded, rid, f"{t.func.key}:template {text[:50]}", "emitted only for a structure that has fields",
+                  "the generated reader aligns the stream with 'cls.alignment - 1' also for a structure without fields (alignment 0): the compiled "
+                  "reader of an empty aligned structure seeks back to the start of the stream", t.func.loc(t.node))
     rep.floor(rid, "class-alignment seek sites", n, 2)
+
+
+def absolute_padding_rule(repo: Repo, rep: Report, rid: str) -> None:
+    rep.rule(rid, "alignment padding in the generated reader is computed from the absolute stream position, as the interpreted reader and the writer "
+                  "compute it: every 'stream.seek(-X & (A - 1), SEEK_CUR)' template has X == stream.tell()")
+    n = 0
+    for t in T.reader_templates(repo):
+        if t.tree is None:
+            continue
+        for c in ast.walk(t.tree):
+            if isinstance(c, ast.Call) and call_name(c) == "seek" and len(c.args) == 2 and isinstance(c.args[0], ast.BinOp) and isinstance(c.args[0].op, ast.BitAnd) \
+                    and isinstance(c.args[0].left, ast.UnaryOp) and isinstance(c.args[0].left.op, ast.USub):
+                n += 1
+                x = norm(c.args[0].left.operand)
+                rep.check(x == "stream.tell()", rid, f"{t.func.key}:template {short(c, 60)}", "padding from the absolute position",
+                          f"the generated reader pads by '-({x}) & ...': relative to the structure start instead of the absolute stream position the interpreted reader "
+                          "and the writer use, so a compiled aligned structure that starts at an unaligned position (element of a packed parent, behind a "
+                          "dynamic field) consumes another number of bytes than is dumped", t.func.loc(t.node))
+    rep.floor(rid, "alignment seek templates", n, 3)
 
 
 def run(repo: Repo, rep: Report, tier: str) -> None:
@@ -429,6 +447,8 @@ def run(repo: Repo, rep: Report, tier: str) -> None:
 
     call_shortcut_rule(repo, rep, "C09.R7")
     leb128_rule(repo, rep, "C09.R8")
+    absolute_padding_rule(repo, rep, "C09.R10")
+
 
 
 
